@@ -22,11 +22,13 @@ def exc_site(e):
     """'Class@function' of the innermost frame inside gemato (or utils)."""
     tb = traceback.extract_tb(e.__traceback__)
     fn = '?'
+    line = ''
     for fr in tb:
         f = fr.filename.replace('\\', '/')
         if '/gemato/' in f or '/utils/' in f:
             fn = os.path.basename(f)[:-3] + '.' + fr.name
-    return '%s@%s' % (type(e).__name__, fn)
+            line = ' '.join((fr.line or '').split())[:70]
+    return '%s@%s[%s]' % (type(e).__name__, fn, line)
 
 
 def classify_exc(e):
